@@ -7,7 +7,7 @@ oracle); the search limit through searching builtins (implementation vs Python o
 from .common import *
 from . import coregen as cg
 from .corecheck import Case, three_way, replay_file
-from .c07 import templates, build, I, V, C
+from .c07 import templates, build, I, V, C, CARRIERS
 
 
 def run(chk):
@@ -125,6 +125,7 @@ def run(chk):
                 chk.violation("c08:search:inexact", f"{e} under maximum_search={L} gives {d}; expected {w} (a search may examine at most L elements)",
                               {"src": f"let r = {e};", "get": ["r"], "limits": {"search": L}, "expected": w, "got": d})
     search_exactness(chk, rng, 60 if quick else 700)
+    carrier_limits(chk, quick)
     # ---- the whole exported library surface: under any call / depth / search limit a call that runs user callbacks ends
     #      in that limit's violation or in exactly the unlimited outcome, monotonically in the limit
     from . import libprobe
@@ -267,3 +268,34 @@ def search_exactness(chk, rng, ncases):
                               f"(a violation exactly when more than L elements are examined, else the unlimited result)",
                               {"src": f"let r = {e};", "get": ["r"], "limits": {"search": L}, "expected": want, "got": d, "examined": ex})
     chk.sample({"search-exact": cases[0][0], "examined": cases[0][1]})
+
+
+# ---------------------------------------------------------------------------------------------- carriers under limits
+def carrier_limits(chk, quick):
+    """A tail self-call through each documented carrier of the tail slot outside the core model (cast, tuple `and`,
+    optional or / map_or / and and their operator spellings, if_error with a specific message) is one frame, one user
+    call and n tail iterations: under every limit configuration the outcome is MaximumRecursion exactly when n exceeds
+    the recursion limit, and otherwise precisely the unlimited value (closed form) - never MaximumStackDepth or
+    MaximumUDCall, whatever n."""
+    reqs, meta = [], []
+    for name, fn, want in CARRIERS:
+        for n in [0, 1, 2, 10, 40] + ([] if quick else [1000, 20000]):
+            lims = [{"depth": 3}, {"ud_calls": 3}, {"depth": 3, "ud_calls": 3}, {"recursion": n}, {"recursion": n + 1},
+                    {"recursion": max(n - 1, 0), "depth": 3, "ud_calls": 3}, {"recursion": max(n // 2, 0)}, {"recursion": n + 5, "depth": 2 + 1, "ud_calls": 2 + 1}]
+            for lim in lims:
+                reqs.append({"op": "run", "src": fn + f"\nlet r = t({n}, 0);\n", "get": ["r"], "limits": lim})
+                meta.append((name, n, lim, want(n)))
+    for (name, n, lim, want), req, r in zip(meta, reqs, run_harness(reqs, per_req_timeout=60.0)):
+        chk.evaluations += 1
+        chk.count("c08:carrier:" + name)
+        chk.nontrivial.add(("carrier", name, n, json.dumps(lim)))
+        ci = cg.canon_impl(r, ["r"])
+        expect_viol = "recursion" in lim and n > lim["recursion"]
+        ok = (ci["outcome"] == "viol:MaximumRecursion") if expect_viol else (ci["outcome"] == "ok" and r["vals"]["r"] == want)
+        if not ok:
+            kind = ci["outcome"].split(" ")[0].replace(":", "-") if ci["outcome"] != "ok" else "wrong-value"
+            chk.violation(f"c08:carrier:{name}:{kind}",
+                          f"`t({n}, 0)` with the tail self-call inside the documented carrier `{name}` under limits {lim}: implementation {json.dumps(ci)[:300]}; "
+                          f"expected {'MaximumRecursion' if expect_viol else want} (one frame, one user call, {n} tail iterations: only the recursion limit can end it)",
+                          {"src": req["src"], "get": ["r"], "limits": lim,
+                           "expected": {"outcome": "viol:MaximumRecursion"} if expect_viol else {"outcome": "ok", "vals": {"r": cg.strip_tags(want)}, "out": []}})
